@@ -64,6 +64,12 @@ def run(ctx):
     for r in recs:
         if r.get("kind") == "oracle_fail":
             failures.append(dict(key=r.get("key", "?"), what=r.get("what", ""), replay=r.get("replay")))
+    # hang candidates beyond the first 6 confirmed ones of a harness run are not re-run alone (20 s each); they are no
+    # violations (never confirmed) but they are listed in the evidence so that nothing is silently dropped
+    unconfirmed = [{k: v for k, v in r.items() if k != "kind"} for r in recs if r.get("kind") == "unconfirmed_hang"]
+    if unconfirmed:
+        print("NOTE property=%s unconfirmed-hang candidates=%d (not re-run alone, not counted as violations; listed in the evidence under "
+              "coverage.unconfirmed_hang_records), e.g. %s" % (pid, len(unconfirmed), json.dumps(unconfirmed[0])[:300]))
     ev = dict(ok=True, bad=[], evaluated=0, log="")
     if cases:
         ev = vf.coq_eval_cases(ctx, pid, RUNNER["imports"], RUNNER["case_type"], RUNNER["mismatch_fn"], [c["coq"] for c in cases], shard=300)
@@ -83,6 +89,8 @@ def run(ctx):
         oracle_failures=len(failures),
         input_distribution=vf.histogram(cases, "class"),
         trusted_base=TRUSTED,
+        unconfirmed_hangs=len(unconfirmed),
+        unconfirmed_hang_records=unconfirmed[:200],
     )
     if proofs.get("coqchk"):
         cov["coqchk"] = proofs["coqchk"]
